@@ -41,16 +41,27 @@ func buildRacer(ctx *core.Ctx) (string, error) {
 		mod += "\nrequire github.com/anishathalye/porcupine v1.3.0\n"
 	}
 	modfile := filepath.Join(bdir, "c12racer-"+key+".mod")
-	if err := os.WriteFile(modfile, []byte(mod), 0o644); err != nil {
+	mtmp := fmt.Sprintf("%s.tmp.%d", modfile, os.Getpid())
+	if err := os.WriteFile(mtmp, []byte(mod), 0o644); err != nil {
+		return "", err
+	}
+	if err := os.Rename(mtmp, modfile); err != nil {
 		return "", err
 	}
 	bin := filepath.Join(bdir, "c12racer-"+key)
-	cmd := exec.Command("go", "build", "-race", "-modfile="+modfile, "-o", bin, "./props/c12/racer")
+	// build under a private name, then rename (another check of the same copy may be
+	// executing the installed binary)
+	tmp := fmt.Sprintf("%s.tmp.%d", bin, os.Getpid())
+	defer os.Remove(tmp)
+	cmd := exec.Command("go", "build", "-race", "-modfile="+modfile, "-o", tmp, "./props/c12/racer")
 	cmd.Dir = goDir
 	cmd.Env = append(os.Environ(), "GOFLAGS=-mod=mod", "GOPROXY=off", "GOSUMDB=off", "GOTOOLCHAIN=local", "CGO_ENABLED=1")
 	out, err := cmd.CombinedOutput()
 	if err != nil {
 		return "", fmt.Errorf("go build -race ./props/c12/racer: %v: %s", err, clipStr(string(out), 1500))
+	}
+	if err := os.Rename(tmp, bin); err != nil {
+		return "", err
 	}
 	return bin, nil
 }
@@ -197,8 +208,15 @@ func raceExtra(ctx *core.Ctx) (int, string, []core.ExtraFailure) {
 			}
 		}
 	}
-	perPair, minIters := "20ms", "300"
-	histDur, minRounds := "3s", "300"
+	// quick on the blessed tree: a light share of every phase (idle ≈ 10 s for this Extra);
+	// the heavy share runs in thorough and when the anchored source has drifted
+	// (ctx.Escalate > 1), where a concrete replay is worth the time
+	drift := ctx.Escalate > 1 && ctx.Tier != "thorough"
+	perPair, minIters := "8ms", "150"
+	histDur, minRounds := "1500ms", "300"
+	if drift {
+		perPair, minIters = "20ms", "300"
+	}
 	timeout := 100 * time.Second
 	if ctx.Tier == "thorough" {
 		perPair, minIters = "700ms", "5000"
@@ -292,7 +310,10 @@ func raceExtra(ctx *core.Ctx) (int, string, []core.ExtraFailure) {
 	}
 	// ---- the same with more goroutines (8 × 3 operations per round)
 	{
-		wideDur, wideRounds := "1s", "100"
+		wideDur, wideRounds := "500ms", "60"
+		if drift {
+			wideDur, wideRounds = "3s", "300"
+		}
 		if ctx.Tier == "thorough" {
 			wideDur, wideRounds = "30s", "3000"
 		}
@@ -320,13 +341,19 @@ func raceExtra(ctx *core.Ctx) (int, string, []core.ExtraFailure) {
 		}
 	}
 	// ---- atomicity of the bulk operations (snapshot counts must be 0 or N)
-	bulkDur, minCycles := "1200ms", "40"
+	bulkDur, minCycles := "500ms", "25"
+	if drift {
+		bulkDur, minCycles = "1200ms", "40"
+	}
 	if ctx.Tier == "thorough" {
 		bulkDur, minCycles = "20s", "2000"
 	}
 	// sizes: small (many cycles) and beyond internal batching thresholds — a single
 	// Delete(keys...) / Map replace of 2 000, 6 000 and 262 144 keys must be ONE step too
 	for _, n := range []string{"300", "1000", "2000", "6000", "262144"} {
+		if (n == "6000" || n == "262144") && !drift && ctx.Tier != "thorough" {
+			continue // the largest sizes: thorough tier and drifted trees only
+		}
 		bulkDur, minCycles := bulkDur, minCycles
 		switch {
 		case n == "262144" && ctx.Tier == "thorough":
@@ -334,7 +361,7 @@ func raceExtra(ctx *core.Ctx) (int, string, []core.ExtraFailure) {
 		case n == "262144":
 			bulkDur, minCycles = "500ms", "3"
 		case (n == "2000" || n == "6000") && ctx.Tier != "thorough":
-			bulkDur, minCycles = "500ms", "8"
+			bulkDur, minCycles = "400ms", "6"
 		}
 		if ctx.Escalate > 1 && ctx.Tier != "thorough" && n != "300" && n != "1000" {
 			bulkDur = "3s"
@@ -378,7 +405,7 @@ func raceExtra(ctx *core.Ctx) (int, string, []core.ExtraFailure) {
 	}
 	// ---- large snapshots: one generation and its size per traversal (sizes beyond
 	// internal batching thresholds: 6000 / 12000 entries)
-	genDur, genCycles := "1500ms", "20"
+	genDur, genCycles := "800ms", "12"
 	if ctx.Escalate > 1 {
 		genDur, genCycles = "8s", "100" // the anchored source differs from the blessed tree
 	}
